@@ -3,10 +3,10 @@
    value = the decimal number, times 10^7, rounded half up in magnitude; must fit int32.
    Digit-array arithmetic only (decimal point shifting), no wide multiplication. */
 #define REF_MAXD 40
-struct ref_result { int ok; long long value; size_t consumed; };
+struct ref_result { int ok; long long value; size_t consumed; long long E; };
 static int ref_isd(char c) { return c >= '0' && c <= '9'; }
 static struct ref_result ref_coord(const char* s, size_t n) {
-  struct ref_result bad = {0, 0, 0};
+  struct ref_result bad = {0, 0, 0, 0};
   unsigned char A[REF_MAXD]; size_t na = 0, ni = 0, nf = 0, i = 0;
   int neg = 0;
   if (s[i] == '-') { neg = 1; ++i; }
@@ -26,8 +26,9 @@ static struct ref_result ref_coord(const char* s, size_t n) {
     if (!ref_isd(s[i])) return bad;
     size_t ne = 0;
     while (i < n && ref_isd(s[i])) { if (ne < 7) E = E * 10 + (s[i] - '0'); ++i; ++ne; }
-    if (ne > 5) return bad;
     if (eneg) E = -E;
+    bad.E = E;
+    if (ne > 5) return bad;
   }
   long long P = (long long)ni + 7 + E;          /* position of the decimal point after scaling by 10^7 */
   long long M = 0; const long long BIG = 100000000000LL;   /* saturation: anything >= 10^11 is out of range */
@@ -41,6 +42,8 @@ static struct ref_result ref_coord(const char* s, size_t n) {
   if (rd >= 5) M += 1;
   long long v = neg ? -M : M;
   if (v > INT32_MAX || v < INT32_MIN) return bad;
-  struct ref_result r = {1, v, i};
+  bad.E = E;
+  if (v > INT32_MAX || v < INT32_MIN) return bad;
+  struct ref_result r = {1, v, i, E};
   return r;
 }
